@@ -103,6 +103,49 @@ pub fn dup_reorder() {
     std::mem::forget((da, db, oa, ob, a, b));
 }
 
+/// all delivery orders of two updates at observers: A does u1; B (optionally after receiving u1: `causal`)
+/// does u2; observers C and D start from the same pre-state (a hash {g}, or nothing) and apply the two deltas
+/// in opposite orders: they must end alike.
+pub fn observers(ka: u8, kb: u8, causal: bool, pre_hash_g: bool) {
+    let mut a = mk(1);
+    let mut b = mk(2);
+    let mut c = mk(3);
+    let mut d = mk(3);
+    d.lamport_clock.time = c.lamport_clock.time;
+    if pre_hash_g {
+        let pts = LamportClock { time: vs::u64(), replica_id: ReplicaId(0) };
+        vs::assume(pts.time <= a.lamport_clock.time && pts.time <= b.lamport_clock.time && pts.time <= c.lamport_clock.time);
+        let pb = vs::u8();
+        let mk_v = || { let mut h = crate::coll::HashMap::new(); h.insert("g".to_string(), LwwRegister { value: Some(sds1(pb)), timestamp: pts, tombstone: false }); ReplicatedValue { crdt: CrdtValue::Hash(h), vector_clock: None, expiry_ms: None, timestamp: pts, replication_factor: None } };
+        a.replicated_keys.insert("k".to_string(), mk_v());
+        b.replicated_keys.insert("k".to_string(), mk_v());
+        c.replicated_keys.insert("k".to_string(), mk_v());
+        d.replicated_keys.insert("k".to_string(), mk_v());
+    }
+    let (xa, xb) = (vs::u8(), vs::u8());
+    let da = apply_update(&mut a, ka, xa);
+    if causal { if let Some(x) = &da { b.apply_remote_delta(x.clone()); } }
+    let db = apply_update(&mut b, kb, xb);
+    if let (Some(x), Some(y)) = (&da, &db) {
+        c.apply_remote_delta(x.clone());
+        c.apply_remote_delta(y.clone());
+        d.apply_remote_delta(y.clone());
+        d.apply_remote_delta(x.clone());
+        let (oc, od) = (obs(&c), obs(&d));
+        let (s_lww, s_kind, s_f, s_ts) = obs_same(&oc, &od);
+        vcheck!(s_kind, "order:same data type whatever the delivery order");
+        vcheck!(s_lww, "order:same string value / liveness whatever the delivery order");
+        vcheck!(s_f, "order:same hash field whatever the delivery order");
+        vcheck!(s_ts, "order:same stamp whatever the delivery order");
+        let fc = c.replicated_keys.get("k").and_then(|v| v.get_hash()).and_then(|h| h.get("f")).map(|l| (l.tombstone, l.timestamp));
+        let fd = d.replicated_keys.get("k").and_then(|v| v.get_hash()).and_then(|h| h.get("f")).map(|l| (l.tombstone, l.timestamp));
+        vcheck!(fc == fd, "order:same field register (tombstone and stamp) whatever the delivery order");
+        vcover!(true, "both updates produced deltas");
+        std::mem::forget((oc, od));
+    }
+    std::mem::forget((da, db, a, b, c, d));
+}
+
 pub fn twin() {
     let mut a = mk(1);
     let mut b = mk(2);
